@@ -417,6 +417,12 @@ class IrGenerator:
                     assert (
                         inp.result() is _boolean.true
                     ), f"internal error: expected boolean literal, got {inp.result()}"
+
+                    if new_state is ctx.first_state() and ctx.at_start():
+                        # `await cohdl.true` as first statement adds no code to the
+                        # first state. Mark the state as used so following
+                        # await/while statements are not treated as first statement.
+                        new_state.code().append(ir.Nop())
                 else:
                     if_body = ir.CodeBlock([], parent=new_state.open_block())
                     new_state.append(
